@@ -192,6 +192,9 @@ def work(shard, res, tier, seed):
             chain_one(rx, res, dec, RSMIComparator.compare_dicts, RSMIComparator.diff_dicts)
         for _, rx in G.dot_ring_closures(rng, 60):
             carbon_one(rx, res, CheckCarbonBalance, is_carbon_balanced)
+            chain_one(rx, res, dec, RSMIComparator.compare_dicts, RSMIComparator.diff_dicts)
+            for side in rx.split(">>"):
+                check_decompose(side, res, dec, "dot_ring_closure")
             res.count("dot_ring_closure_inputs")
         for k in range(0, min(len(pick), 200), 20):
             atom_balance_sequence([r["reaction"] for r in pick[k:k + 20]], res, CheckCarbonBalance)
